@@ -29,7 +29,7 @@ pub fn build_seeds(seed: u64) -> Vec<Seed> {
     let mut out = Vec::new();
     // library-written packages
     for case in 0..10u64 {
-        let mut g = Gen::new(Rng::derive(seed, 91, case), GenCfg { invalid_pct: 0, huge_strings: case == 3, ..Default::default() }, case);
+        let mut g = Gen::new(Rng::derive(seed, 91, case), GenCfg { invalid_pct: 0, huge_strings: case == 3, big_batch_one_in: if case == 4 { 10 } else { 0 }, ..Default::default() }, case);
         let mut s = match Session::create(["Installer", "Patch", "Transform"][(case % 3) as usize]) {
             Ok(s) => s,
             Err(_) => continue,
